@@ -1,6 +1,7 @@
 package main
 
 import (
+	"encoding/json"
 	"sort"
 
 	openfgav1 "github.com/openfga/api/proto/openfga/v1"
@@ -54,10 +55,13 @@ type AbsCond struct {
 type AbsModel struct {
 	// APIStyle: build the protobuf the way API clients write it - metadata entries only for relations with a direct
 	// assignment - instead of the way the DSL transformer shapes it (an entry for every relation)
-	APIStyle bool      `json:"api_style,omitempty"`
-	Schema   string    `json:"schema,omitempty"`
-	Types    []AbsType `json:"types"`
-	Conds    []AbsCond `json:"conds,omitempty"`
+	APIStyle bool `json:"api_style,omitempty"`
+	// SharedNodes: structurally equal rewrite subtrees are ONE message value, within a relation, across relations and across types
+	// (what a program that assembles models from building blocks produces; proto.Equal to the unshared model)
+	SharedNodes bool      `json:"shared_nodes,omitempty"`
+	Schema      string    `json:"schema,omitempty"`
+	Types       []AbsType `json:"types"`
+	Conds       []AbsCond `json:"conds,omitempty"`
 }
 
 // absRw projects a rewrite tree. A tree nested deeper than maxRwDepth is not a tree any more (a listener that lets a Child slice
@@ -219,6 +223,36 @@ func protoRw(t *AbsTree) *openfgav1.Userset {
 	return &openfgav1.Userset{}
 }
 
+// protoRwShared is protoRw with structurally equal subtrees interned
+func protoRwShared(t *AbsTree, intern map[string]*openfgav1.Userset) *openfgav1.Userset {
+	if t == nil {
+		return nil
+	}
+	kb, _ := json.Marshal(t)
+	if u, ok := intern[string(kb)]; ok {
+		return u
+	}
+	var u *openfgav1.Userset
+	switch t.K {
+	case "union", "inter":
+		ch := []*openfgav1.Userset{}
+		for _, c := range t.Ch {
+			ch = append(ch, protoRwShared(c, intern))
+		}
+		if t.K == "union" {
+			u = &openfgav1.Userset{Userset: &openfgav1.Userset_Union{Union: &openfgav1.Usersets{Child: ch}}}
+		} else {
+			u = &openfgav1.Userset{Userset: &openfgav1.Userset_Intersection{Intersection: &openfgav1.Usersets{Child: ch}}}
+		}
+	case "diff":
+		u = &openfgav1.Userset{Userset: &openfgav1.Userset_Difference{Difference: &openfgav1.Difference{Base: protoRwShared(t.Ch[0], intern), Subtract: protoRwShared(t.Ch[1], intern)}}}
+	default:
+		u = protoRw(t)
+	}
+	intern[string(kb)] = u
+	return u
+}
+
 func protoRestr(rs []AbsRestr) []*openfgav1.RelationReference {
 	out := []*openfgav1.RelationReference{}
 	for _, r := range rs {
@@ -250,6 +284,7 @@ func protoModel(am *AbsModel) *openfgav1.AuthorizationModel {
 		schema = "1.1"
 	}
 	m := &openfgav1.AuthorizationModel{SchemaVersion: schema}
+	intern := map[string]*openfgav1.Userset{}
 	for _, at := range am.Types {
 		td := &openfgav1.TypeDefinition{Type: at.Name, Relations: map[string]*openfgav1.Userset{}}
 		if len(at.Rels) > 0 || at.Module != "" || at.File != "" {
@@ -260,6 +295,9 @@ func protoModel(am *AbsModel) *openfgav1.AuthorizationModel {
 		}
 		for _, ar := range at.Rels {
 			td.Relations[ar.Name] = protoRw(ar.Rw)
+			if am.SharedNodes {
+				td.Relations[ar.Name] = protoRwShared(ar.Rw, intern)
+			}
 			rm := &openfgav1.RelationMetadata{DirectlyRelatedUserTypes: protoRestr(ar.Restr), Module: ar.Module}
 			if ar.File != "" {
 				rm.SourceInfo = &openfgav1.SourceInfo{File: ar.File}
